@@ -447,6 +447,13 @@ func TestC20Routing(t *testing.T) {
 		if origin != "" {
 			req.Header.Set("Origin", origin)
 		}
+		// headers of caches and download managers: the document is served whole all the same
+		extra := rapid.SampledFrom([]string{"", "", "", "Range: bytes=0-3", "If-None-Match: *", "If-Match: \"x\"", "If-Modified-Since: Mon, 02 Jan 2006 15:04:05 GMT", "If-Range: \"x\""}).Draw(t, "extra_header")
+		if extra != "" {
+			kv := strings.SplitN(extra, ": ", 2)
+			req.Header.Set(kv[0], kv[1])
+			desc["extra_header"] = extra
+		}
 		w := httptest.NewRecorder()
 		mux.ServeHTTP(w, req)
 		res := w.Result()
